@@ -1,6 +1,7 @@
 SPECIFICATION GenSpec
 CONSTANTS
   NoRefresh = "norefresh"
+  AsIsNoContain = FALSE
   MaxN = 0
   MaxDepth = 3
 CONSTRAINT Depth
